@@ -717,7 +717,9 @@ func tailStr(s string, n int) string {
 	return s
 }
 
-func sanitize(s string) string { return regexp.MustCompile(`[^A-Za-z0-9_.-]+`).ReplaceAllString(s, "_") }
+func sanitize(s string) string {
+	return regexp.MustCompile(`[^A-Za-z0-9_.-]+`).ReplaceAllString(s, "_")
+}
 
 func caseOp(j job) string {
 	return "case " + j.surface + " " + base64.StdEncoding.EncodeToString(j.input)
